@@ -212,6 +212,32 @@ def run(ctx, name, kind, **kw):
                 if isinstance(rs2, tuple):
                     judge(ctx, vk, dom, Q, sigs.ref_encode("string", rs2[0], rs2[1], n), "string", dg2, True, "prod.valid", c.name + "|verify|" + hn, c.name, d=d, via_verify=(msg, hf))
                     judge(ctx, vk, dom, Q, sigs.ref_encode("der", rs2[0], rs2[1], n), "der", hf(msg + b"!").digest(), True, "prod.wrong_msg", c.name + "|verify|" + hn, c.name, d=d, via_verify=(msg + b"!", hf))
+            # digests of every length around and beyond the order's byte length, both truncation settings: valid signatures over the
+            # leftmost bits (made by the reference) must verify, and a signature over one more / one fewer bit must not
+            for dl in sorted({1, L - 1, L, L + 1, L + 2, 2 * L, 2 * L + 5, 100}):
+                if dl < 1:
+                    continue
+                dgl = bytes(rng.getrandbits(8) for _ in range(dl - 1)) + bytes([rng.getrandbits(8) | 1])
+                for at in (True, False):
+                    try:
+                        el = ecdsa_ref.digest_to_e(dom, dgl, at)
+                    except ValueError:          # too long and truncation disabled: BadDigestError is the expected outcome
+                        el = None
+                    if el is None:
+                        if not at and dl > L:
+                            judge(ctx, vk, dom, Q, sigs.ref_encode("string", r, s, n), "string", dgl, at, "prod.digest_length", c.name + "|%s%d" % ("L+" if dl > L else "L", dl - L), c.name, d=d)
+                        continue
+                    rsl = ecdsa_ref.sign(dom, d, k, el)
+                    if isinstance(rsl, tuple):
+                        judge(ctx, vk, dom, Q, sigs.ref_encode("der" if dl % 2 else "string", rsl[0], rsl[1], n), "der" if dl % 2 else "string", dgl, at, "prod.digest_length",
+                              c.name + "|%s%d" % ("L+" if dl > L else "L", dl - L), c.name, d=d)
+                    # the same digest read with one bit more / less than the order has (what an off-by-one bit count would sign)
+                    if at and 8 * dl > n.bit_length():
+                        for sh in (n.bit_length() + 1, n.bit_length() - 1):
+                            e_off = int.from_bytes(dgl, "big") >> (8 * dl - sh)
+                            rso = ecdsa_ref.sign(dom, d, k, e_off)
+                            if isinstance(rso, tuple) and e_off % n != el % n:
+                                judge(ctx, vk, dom, Q, sigs.ref_encode("string", rso[0], rso[1], n), "string", dgl, at, "prod.digest_length", c.name + "|offbyone", c.name, d=d)
             # malleated s: must still verify
             J("prod.malleated_s", r, n - s)
             # R = O : r = -e/d mod n
